@@ -8,6 +8,42 @@ import sys
 import time
 
 
+class CallDeadline(Exception):
+    """a single library call did not return within the (very generous) deadline"""
+
+
+class deadline:
+    """with deadline(60): opt.solve()   -- a call that normally takes milliseconds and has not returned after `seconds` of wall time is
+    interrupted (SIGALRM) and reported by the caller as a failed clause ("returns / succeeds"), instead of hanging the whole harness until
+    the driver's timeout turns everything it found into "checker broken"."""
+
+    def __init__(self, seconds=60):
+        self.seconds = seconds
+
+    def __enter__(self):
+        import signal
+
+        def onalarm(signum, frame):
+            raise CallDeadline(f"the call did not return within {self.seconds} s")
+        self._old = signal.signal(signal.SIGALRM, onalarm)
+        signal.setitimer(signal.ITIMER_REAL, self.seconds)
+        return self
+
+    def __exit__(self, *exc):
+        import signal
+        signal.setitimer(signal.ITIMER_REAL, 0)
+        signal.signal(signal.SIGALRM, self._old)
+        return False
+
+
+DEADLINE_SRC = """
+import signal as _signal
+def _onalarm(signum, frame):
+    raise RuntimeError('the call did not return within 60 s')
+_signal.signal(_signal.SIGALRM, _onalarm); _signal.setitimer(_signal.ITIMER_REAL, 60)
+"""
+
+
 def assert_scratch_build():
     """the code under test must be the scratch build of the working tree, compiled"""
     import xdeps
